@@ -44,7 +44,7 @@ struct St {
     std::set<int> erased_model;
     int cur_push_value[vrt::MAXF]; bool cur_push_front[vrt::MAXF];
     const void* paused_on[vrt::MAXF];
-    bool lbl_dealloc_under_handle = false, lbl_paused_on_erased = false, lbl_trav_overlap = false, lbl_records_reclaimed = false;
+    bool lbl_dealloc_under_handle = false, lbl_paused_on_erased = false, lbl_trav_overlap = false, lbl_records_reclaimed = false, lbl_push_threw = false;
     long deallocs_nodes = 0;
     int next_value = 100;
     bool track_keys = false;
@@ -57,6 +57,7 @@ void on_dealloc(void* p, const char* type) {
     vrt::QLedger::Blk* b = vrt::ledger().find(p);
     uintptr_t lo = (uintptr_t)p, hi = lo + (b ? b->bytes : 0);
     bool is_node = std::strstr(type, "zombie_list_node") == nullptr;
+    if (b && !b->ever_constructed) return;      // storage given back after a failed construction: never part of the list
     bool any_alive = false;
     for (auto& h : S->handles) if (h.alive) any_alive = true;
     if (!is_node) { if (any_alive) S->lbl_records_reclaimed = true; return; }
@@ -113,11 +114,22 @@ vh::Outcome run_rcu(const vh::Case& c, Prop prop) {
                 st.push_call[v] = vrt::now_step();
                 st.seqkey[v] = (kind % 2 == 0) ? --st.smin : ++st.smax;
                 st.mutations_in_flight++;
-                switch (kind % 4) {
-                    case 0: h->push_front(E::make(v)); break;
-                    case 1: h->push_back(E::make(v)); break;
-                    case 2: h->emplace_front(E::make(v)); break;
-                    default: h->emplace_back(E::make(v)); break;
+                try {
+                    switch (kind % 4) {
+                        case 0: h->push_front(E::make(v)); break;
+                        case 1: h->push_back(E::make(v)); break;
+                        case 2: h->emplace_front(E::make(v)); break;
+                        default: h->emplace_back(E::make(v)); break;
+                    }
+                } catch (const vrt::InjectedFault&) {
+                    // the element's copy/move constructor threw: the list must be unchanged and nothing half-built may be destroyed (strong guarantee)
+                    if (!c.sched.fault_k) vrt::fail("escaped-fault", "fault without a plan");
+                    st.mutations_in_flight--;
+                    st.cur_push_value[f] = -1;
+                    st.push_call.erase(v); st.seqkey.erase(v); st.key.erase(v);
+                    if (vrt::me().held != 0) vrt::fail("lock-leaked-on-throw", "the list's write mutex is still held after element construction threw");
+                    st.lbl_push_threw = true;
+                    return;
                 }
                 st.mutations_in_flight--; st.mutations_done++;
                 st.push_ret[v] = vrt::now_step();
@@ -259,6 +271,7 @@ vh::Outcome run_rcu(const vh::Case& c, Prop prop) {
                 });
             }
             vrt::join_all();
+            vrt::disable_faults();
             // final contents == sequential model (mutex order)
             {
                 std::vector<int> fin;
@@ -298,6 +311,7 @@ vh::Outcome run_rcu(const vh::Case& c, Prop prop) {
     if (st.lbl_records_reclaimed) out.labels.push_back("records-freed-under-live-handle");
     if (L.null_destroy || L.null_dealloc) out.labels.push_back("null-destroy-seen");
     if (erases_done) out.labels.push_back("erased");
+    if (st.lbl_push_threw) out.labels.push_back("element-construction-threw");
     switch (prop) {
         case P_C05: out.nontrivial = st.lbl_dealloc_under_handle || st.lbl_paused_on_erased; break;
         case P_C12: out.nontrivial = st.lbl_trav_overlap; break;
@@ -335,6 +349,10 @@ vh::Register r12("C12", spec(P_C12, false), spec(P_C12, true), [](const vh::Case
 vh::Register r12s("C12s", spec(P_C12S, false), spec(P_C12S, true), [](const vh::Case& c) { return run_rcu<Tracked>(c, P_C12S); },
                   "generated sequential command sequences (push_front/back, emplace_front/back, erase k-th, traversal) compared with a reference list after every command; "
                   "non-trivial = at least one erase and one insertion");
+vh::GenSpec spec13f(bool th) { vh::GenSpec g = spec(P_C13, th); g.fault_max = 8; g.fault_mask = vrt::F_COPY; g.cfg_max = {1, 5}; return g; }
+vh::Register r13f("C13f", spec13f(false), spec13f(true), [](const vh::Case& c) { return run_rcu<Tracked>(c, P_C13); },
+                  "as C13 (T = Tracked) with a fault plan: the k-th element copy/move construction throws inside push_*/emplace_*; nothing that was never constructed may be destroyed, "
+                  "the write mutex is released, the list is unchanged; non-trivial as C13");
 vh::Register r13("C13", spec(P_C13, false), spec(P_C13, true), dispatch13,
                  "generated handle/push/erase programs for T in {Tracked, std::string, int} with a strict allocator ledger (null/double/missing destroy or deallocate, leaks at list destruction); "
                  "non-trivial = >=2 handles and at least one push or erase beyond the prefill");
